@@ -1,9 +1,9 @@
 CONSTANTS
   Dev = {}
   Sigma = {} MaxText = 0
-  EA <- FewBytes EB <- Bytes EC <- Bytes
+  EA = {} EB = {} EC = {}
   P1 = {} P2 = {} P3 = {} P4 = {}
-INIT EncInit
-NEXT EncNext
-INVARIANTS EncLemma EncRound
+INIT QInit
+NEXT QNext
+INVARIANTS QInv
 CHECK_DEADLOCK FALSE
